@@ -71,7 +71,7 @@ def units(tier):
                 if q and var != "plain" and rot % 3:
                     continue
                 sym = "com" if (var in ("trail", "semi_trail") and rot % 2) else h
-                us.append(dict(h="items", raw=raw, j=-1, o=0, amp=False, var=var, sym=sym, ic=bool(rot % 2), cost=1))
+                us.append(dict(h="items", raw=raw, j=-1, o=0, amp=False, var=var, sym=sym, ic=bool(rot % 2), cost=0))
     for k, src in enumerate(STREAMS):
         for n in ((4, 6) if q else (4, 6, 8)):
             for skip in (0, 4, 7):
@@ -89,7 +89,7 @@ def meta(tier):
                             putback_ops=6 if q else 8, streams=len(STREAMS)),
                 assumptions=["free form; a split inside a character context uses a leading '&' and carries no trailing comment (standard 3.3.1.3.1)",
                              "';'-joined statements are compared case-insensitively here (their lower-casing is reported separately)"],
-                budget_s=300 if q else 1500, unit_budget_s=60 if q else 300, witness_every=10)
+                budget_s=420 if q else 1500, unit_budget_s=60 if q else 300, witness_every=10)
 
 
 def _describe(it):
